@@ -4,7 +4,7 @@ From Coq Require Import List Arith Bool ZArith Ring Lia.
 From PV Require Import Base.Index Base.Perm Base.Sum Np.Array Model.Sparse Model.Repr Model.C08Kruskal Model.C09Als Model.C09Loop
   Proofs.C09Identity Proofs.C09Monotone Proofs.C09Scaling Proofs.C09LoopProofs Proofs.C09Reported Proofs.C09Norm
   Proofs.C09NormalForm Proofs.C09NormalRun Proofs.C09FixSigns
-  Model.C02Spec Model.C02Dense Model.C02Kruskal Model.C02SpKernels Proofs.C02DenseProofs Proofs.C09Holders Model.C09Init Proofs.C09InitProofs.
+  Model.C02Spec Model.C02Dense Model.C02Kruskal Model.C02SpKernels Model.C02Tucker Proofs.C02DenseProofs Proofs.C09Holders Model.C09Init Proofs.C09InitProofs Proofs.C09W4.
 Import ListNotations.
 
 Section C09.
@@ -108,14 +108,7 @@ Theorem C09_scaling_indep : forall (R : nat) (X : idx -> V) (mk : list (@matrix 
   forall i, inb s i = true ->
     st_den V v0 v1 vadd vmul (als_iter v0 v1 vadd vmul mk solve scale2 R (S k) dims st2) i
     = st_den V v0 v1 vadd vmul (als_iter v0 v1 vadd vmul mk solve scale1 R (S k) dims st1) i.
-Proof.
-  intros R X mk solve scale1 scale2 s dims st1 st2 k W1 W2 E Hne Hh i Hi.
-  assert (K1 : vmul v1 v1 = v1) by (apply (Rmul_1_l Vring)).
-  pose proof (proj2 (iter_equiv V v0 v1 vadd vmul vsub vopp Vring R X X v1 v1 K1 mk mk solve solve scale1 scale2 s dims st1 st2 k
-                (related_same_factors V v0 v1 vadd vmul vsub vopp Vring R s st1 st2 W1 W2 E)
-                (fun i _ => eq_sym (Rmul_1_l Vring (X i))) Hne Hh) i Hi) as H.
-  rewrite H. apply (Rmul_1_l Vring).
-Qed.
+Proof. exact (scaling_indep V v0 v1 vadd vmul vsub vopp Vring). Qed.
 End C09.
 
 (* ---- (2d) monotonicity over an ordered ring ---- *)
@@ -300,6 +293,13 @@ Theorem C09_holder_sum : forall R (s : shape)
             (mk_sum V v0 vadd R s (map (fun p => snd (fst p)) parts)) (fun U n => Forall (fun p => snd p U n) parts).
 Proof. exact (holder_sum V v0 v1 vadd vmul vsub vopp Vring). Qed.
 
+(* wave 4: the Tucker holder — ttensor.mttkrp's algorithm (W_i = U_i^T V_i, core.mttkrp(W, n) through tensor.mttkrp, U_n Y; C02's
+   impl_mttkrp_t with theorem C02_mttkrp_tucker) returns the MTTKRP matrix of the Tucker tensor's denotation *)
+Theorem C09_holder_tucker : forall R (T : ttensor V),
+  wf_dense (tcore T) -> 2 <= length (tfactors T) -> length (dshape (tcore T)) = length (tfactors T) ->
+  holder_ok V v0 v1 vadd vmul R (tshape T) (den_t v0 v1 vadd vmul T) (mk_tucker V v0 vadd vmul R T) (good_any V).
+Proof. exact (holder_tucker V v0 v1 vadd vmul vsub vopp Vring). Qed.
+
 (* the factor updated last satisfies its normal equations w.r.t. the DENOTATION of the data when the sweep calls the holder's own
    mttkrp algorithm, LAPACK returned A with A . Y = P for the Y, P it was given, and the scaling divided the columns *)
 Theorem C09_code_normal_eq : forall R (solve : @matrix V -> @matrix V -> @matrix V) (scale : nat -> @matrix V -> list V * @matrix V)
@@ -332,10 +332,7 @@ Theorem C09_normal_eq_dense : forall R (solve : @matrix V -> @matrix V -> @matri
   normal_eq v0 v1 vadd vmul (dshape X) (den_dense v0 X) n (st_U (als_update v0 v1 vadd vmul mk solve scale R it st n)) R
     (fun j r => vmul (nth r (st_w (als_update v0 v1 vadd vmul mk solve scale R it st n)) v0)
                      (mget v0 (nth n (st_U (als_update v0 v1 vadd vmul mk solve scale R it st n)) []) j r)).
-Proof.
-  intros R solve scale X W HN. exact (code_normal_eq V v0 v1 vadd vmul R solve scale (dshape X) (den_dense v0 X) _ _
-    (holder_dense V v0 v1 vadd vmul vsub vopp Vring R X W HN)).
-Qed.
+Proof. exact (normal_eq_dense V v0 v1 vadd vmul vsub vopp Vring). Qed.
 Theorem C09_normal_eq_sparse : forall R (solve : @matrix V -> @matrix V -> @matrix V) (scale : nat -> @matrix V -> list V * @matrix V)
     (S : sparse V), wf_sp isz S ->
   let mk := mk_sparse V v0 v1 vadd vmul R S in
@@ -344,10 +341,17 @@ Theorem C09_normal_eq_sparse : forall R (solve : @matrix V -> @matrix V -> @matr
   normal_eq v0 v1 vadd vmul (sshape S) (den_sp v0 S) n (st_U (als_update v0 v1 vadd vmul mk solve scale R it st n)) R
     (fun j r => vmul (nth r (st_w (als_update v0 v1 vadd vmul mk solve scale R it st n)) v0)
                      (mget v0 (nth n (st_U (als_update v0 v1 vadd vmul mk solve scale R it st n)) []) j r)).
-Proof.
-  intros R solve scale S W. exact (code_normal_eq V v0 v1 vadd vmul R solve scale (sshape S) (den_sp v0 S) _ _
-    (holder_sparse V v0 v1 vadd vmul vsub vopp Vring R isz S W)).
-Qed.
+Proof. exact (normal_eq_sparse V v0 v1 vadd vmul vsub vopp Vring isz). Qed.
+Theorem C09_normal_eq_tucker : forall R (solve : @matrix V -> @matrix V -> @matrix V) (scale : nat -> @matrix V -> list V * @matrix V)
+    (T : ttensor V), wf_dense (tcore T) -> 2 <= length (tfactors T) -> length (dshape (tcore T)) = length (tfactors T) ->
+  let mk := mk_tucker V v0 vadd vmul R T in
+  forall it st n, st_wf V R (tshape T) st ->
+  update_code_contract V v0 v1 vadd vmul R solve scale (tshape T) mk (good_any V) it st n ->
+  normal_eq v0 v1 vadd vmul (tshape T) (den_t v0 v1 vadd vmul T) n (st_U (als_update v0 v1 vadd vmul mk solve scale R it st n)) R
+    (fun j r => vmul (nth r (st_w (als_update v0 v1 vadd vmul mk solve scale R it st n)) v0)
+                     (mget v0 (nth n (st_U (als_update v0 v1 vadd vmul mk solve scale R it st n)) []) j r)).
+Proof. exact (normal_eq_tucker V v0 v1 vadd vmul vsub vopp Vring). Qed.
+
 End C09code.
 
 Section C09codeord.
@@ -432,7 +436,7 @@ Proof. exact (draw_entry V v0). Qed.
 Theorem C09_init_random_shape : forall R (s : shape) (stream : list V), list_sum s * R <= length stream ->
   (krank (init_random v1 s R stream) = R /\ kshape (init_random v1 s R stream) = s /\ kweights (init_random v1 s R stream) = repeat v1 R) /\
   Forall (fun A => Forall (fun row => length row = R) A) (kfactors (init_random v1 s R stream)).
-Proof. intros R s stream H. split; [exact (init_random_shape V v1 R s stream H)|exact (proj2 (draw_shape V R s stream H))]. Qed.
+Proof. exact (init_random_shape_rows V v1). Qed.
 (* exact consumption: the flattened factors are the first R * sum(shape) numbers, the generator is left at the next one *)
 Theorem C09_init_random_consumes : forall R (s : shape) (stream : list V), list_sum s * R <= length stream ->
   concat (map (@concat V) (kfactors (init_random v1 s R stream))) = firstn (list_sum s * R) stream /\
@@ -471,6 +475,8 @@ Print Assumptions C09_code_normal_eq.
 Print Assumptions C09_code_reported_residual.
 Print Assumptions C09_normal_eq_dense.
 Print Assumptions C09_normal_eq_sparse.
+Print Assumptions C09_holder_tucker.
+Print Assumptions C09_normal_eq_tucker.
 Print Assumptions C09_code_monotone.
 Print Assumptions C09_fixsigns_columns.
 Print Assumptions C09_normal_form_run_fix.
@@ -625,3 +631,12 @@ Example C09_init_random_example :
   = mkK [1; 1]%Z [ [[1; 2]; [3; 4]]; [[5; 6]; [7; 8]; [9; 10]] ]%Z /\
   snd (draw_factors [2; 3]%nat 2 [1; 2; 3; 4; 5; 6; 7; 8; 9; 10; 11; 12]%Z) = [11; 12]%Z.
 Proof. vm_compute. split; reflexivity. Qed.
+
+(* wave 4 non-vacuity: the Tucker holder on a concrete non-symmetric instance (core 1 x 2, factors 2 x 1 and 3 x 2, rank-2 factor list) *)
+Example C09_holder_tucker_example :
+  let T := mkT (mkDense [1; 2]%nat [2; -1]%Z) [[[1]; [2]]; [[1; 0]; [0; 1]; [1; 1]]]%Z in
+  let U := [[[1; 2]; [3; -1]]; [[2; 1]; [1; 0]; [-1; 3]]]%Z in
+  mk_tucker Z 0%Z Z.add Z.mul 2 T U 0 = mttkrp_mat 0%Z 1%Z Z.add Z.mul (tshape T) (den_t 0%Z 1%Z Z.add Z.mul T) U 0 2 /\
+  mk_tucker Z 0%Z Z.add Z.mul 2 T U 1 = mttkrp_mat 0%Z 1%Z Z.add Z.mul (tshape T) (den_t 0%Z 1%Z Z.add Z.mul T) U 1 2 /\
+  mk_tucker Z 0%Z Z.add Z.mul 2 T U 0 = [[2; 5]; [4; 10]]%Z.
+Proof. vm_compute. repeat split; reflexivity. Qed.
